@@ -1467,7 +1467,11 @@ class Engine:
             raise Untranslatable("unop %s" % rv.a)
         if k == "discriminant":
             v = self.place_cell(frame, rv.a).v
-            return self.discriminant(frame, v)
+            d = self.discriminant(frame, v)
+            it = int_type(getattr(self, "dest_type", None) or "")
+            if it is not None and isinstance(d, Int) and d.bits != it[0]:
+                d = int_cast(d, it[0], it[1])       # the discriminant has the type of the destination local
+            return d
         if k == "len":
             v = self.place_cell(frame, rv.a).v
             return self.seq_len(v)
@@ -1804,6 +1808,7 @@ class Engine:
         if c is None:
             c = callee.replace("std::io::", "io::")
             c = re.sub(r"\b(?:std|alloc)::(slice|str|num|array)::<impl", r"core::\1::<impl", c)
+            c = re.sub(r"(?<![\w:])(slice|str|num|array|bool)::<impl", r"core::\1::<impl", c)
             c = self._re_stdpath.sub("", c)
             self.norm_cache[callee] = c
         return c
